@@ -44,7 +44,7 @@ def _replace_calls(fn):
     return out
 
 
-def generate(lean_dir: str):
+def generate_path(lean_dir: str):
     cm = P.parse_file("pdfminer/cmapdb.py")
     load = P.find_function(cm, "CMapDB._load_data")
     pre, suf = _split_format(_find_format(load, ".pickle"))
@@ -98,3 +98,10 @@ def generate(lean_dir: str):
     path = os.path.join(lean_dir, "PdfVerif", "Gen", "PathGen.lean")
     P.write_if_changed(path, "".join(out))
     return [path]
+
+
+def generate(lean_dir: str):
+    """C15's theorems also speak about the image extensions of Gen/ImageGen.lean: regenerate both files
+    (gen_c18.generate writes ImageGen.lean and calls generate_path)."""
+    from . import gen_c18
+    return gen_c18.generate(lean_dir)
